@@ -31,6 +31,9 @@ use std::borrow::Cow;
 
 const QUERYSPLITCHARS: &[char] = &[' ', '\n', '\r', '\t'];
 
+/// Blocks (`[ ]` unions and `{ }` subqueries) can be nested this deep, the parser refuses anything deeper rather than recursing without bound
+const MAX_QUERY_NESTING: usize = 32;
+
 #[derive(Clone, Copy, Debug, PartialEq)]
 /// Holds the type of a [`Query`].
 pub enum QueryType {
@@ -431,7 +434,15 @@ impl<'a> Constraint<'a> {
     }
 
     pub(crate) fn parse(
+        querystring: &'a str,
+    ) -> Result<(Self, Vec<&'a str>, &'a str), StamError> {
+        Self::parse_nested(querystring, 0)
+    }
+
+    /// Parses a constraint at a certain nesting depth of union (`[ ]`) blocks
+    fn parse_nested(
         mut querystring: &'a str,
+        depth: usize,
     ) -> Result<(Self, Vec<&'a str>, &'a str), StamError> {
         let (attributes, remainder) = Query::parse_attributes(querystring)?;
         querystring = remainder;
@@ -611,10 +622,16 @@ impl<'a> Constraint<'a> {
                 }
             }
             Some("[") => {
+                if depth >= MAX_QUERY_NESTING {
+                    return Err(StamError::QuerySyntaxError(
+                        format!("[ ] blocks are nested deeper than {}", MAX_QUERY_NESTING),
+                        "Parsing [ ] block failed",
+                    ));
+                }
                 let mut subconstraints: Vec<Constraint<'a>> = Vec::new();
                 querystring = querystring[1..].trim_start();
                 while !querystring.is_empty() {
-                    let (subconstraint, _, remainder) = Self::parse(querystring)?; //MAYBE TODO: attributes inside a union are discarded
+                    let (subconstraint, _, remainder) = Self::parse_nested(querystring, depth + 1)?; //MAYBE TODO: attributes inside a union are discarded
                     subconstraints.push(subconstraint);
                     let remainder = remainder.trim_start();
                     if remainder.starts_with("OR ") {
@@ -1171,21 +1188,22 @@ impl<'a> Query<'a> {
     pub fn parse(mut querystring: &'a str) -> Result<(Self, &'a str), StamError> {
         querystring = querystring.trim();
         let (attributes, querystring) = Self::parse_attributes(querystring)?;
-        Self::parse_with_attributes(querystring, attributes)
+        Self::parse_with_attributes(querystring, attributes, 0)
     }
 
     /// Like parse(), but pass already precomputed attributes (no new attributes will be allowed)
     fn parse_with_attributes(
         mut querystring: &'a str,
         attributes: Vec<&'a str>,
+        depth: usize,
     ) -> Result<(Self, &'a str), StamError> {
         querystring = querystring.trim();
         if let Some("SELECT") = querystring.split(QUERYSPLITCHARS).next() {
-            Self::parse_select(querystring, attributes)
+            Self::parse_select(querystring, attributes, depth)
         } else if let Some("ADD") = querystring.split(QUERYSPLITCHARS).next() {
-            Self::parse_add(querystring, attributes)
+            Self::parse_add(querystring, attributes, depth)
         } else if let Some("DELETE") = querystring.split(QUERYSPLITCHARS).next() {
-            Self::parse_delete(querystring, attributes)
+            Self::parse_delete(querystring, attributes, depth)
         } else {
             return Err(StamError::QuerySyntaxError(
                 format!(
@@ -1235,6 +1253,7 @@ impl<'a> Query<'a> {
     fn parse_select(
         mut querystring: &'a str,
         attributes: Vec<&'a str>,
+        depth: usize,
     ) -> Result<(Self, &'a str), StamError> {
         let mut end = "SELECT".len();
         querystring = querystring[end..].trim_start();
@@ -1315,7 +1334,7 @@ impl<'a> Query<'a> {
         }
 
         //parse subquery
-        let (subqueries, remainder) = Self::parse_subqueries(querystring, false)?;
+        let (subqueries, remainder) = Self::parse_subqueries(querystring, false, depth)?;
 
         querystring = remainder;
         Ok((
@@ -1338,6 +1357,7 @@ impl<'a> Query<'a> {
     fn parse_add(
         mut querystring: &'a str,
         attributes: Vec<&'a str>,
+        depth: usize,
     ) -> Result<(Self, &'a str), StamError> {
         let mut end = "ADD".len();
         querystring = querystring[end..].trim_start();
@@ -1392,7 +1412,7 @@ impl<'a> Query<'a> {
         }
 
         //parse subquery
-        let (subquery, remainder) = Self::parse_subqueries(querystring, false)?;
+        let (subquery, remainder) = Self::parse_subqueries(querystring, false, depth)?;
         querystring = remainder;
         Ok((
             Self {
@@ -1414,6 +1434,7 @@ impl<'a> Query<'a> {
     fn parse_delete(
         mut querystring: &'a str,
         attributes: Vec<&'a str>,
+        depth: usize,
     ) -> Result<(Self, &'a str), StamError> {
         let mut end = "DELETE".len();
         querystring = querystring[end..].trim_start();
@@ -1443,7 +1464,7 @@ impl<'a> Query<'a> {
         querystring = remainder;
 
         //parse subquery
-        let (subqueries, remainder) = Self::parse_subqueries(querystring, false)?;
+        let (subqueries, remainder) = Self::parse_subqueries(querystring, false, depth)?;
         querystring = remainder;
         Ok((
             Self {
@@ -1483,22 +1504,30 @@ impl<'a> Query<'a> {
     fn parse_subqueries(
         mut querystring: &'a str,
         mutable: bool,
+        depth: usize,
     ) -> Result<(Vec<Self>, &'a str), StamError> {
         let mut subqueries = Vec::new();
         if querystring.trim_start().chars().nth(0) == Some('{') {
+            if depth >= MAX_QUERY_NESTING {
+                return Err(StamError::QuerySyntaxError(
+                    format!("Subqueries are nested deeper than {}", MAX_QUERY_NESTING),
+                    "",
+                ));
+            }
             loop {
                 querystring = &querystring[1..].trim_start(); //strips the { or | and any spaces
                 let (attributes, remainder) = Self::parse_attributes(querystring)?;
                 querystring = remainder;
                 if querystring.starts_with("SELECT") {
-                    let (subquery, remainder) = Self::parse_select(querystring, attributes)?;
+                    let (subquery, remainder) =
+                        Self::parse_select(querystring, attributes, depth + 1)?;
                     subqueries.push(subquery);
                     querystring = remainder.trim_start();
                 } else if mutable
                     && (querystring.starts_with("ADD") || querystring.starts_with("DELETE"))
                 {
                     let (subquery, remainder) =
-                        Self::parse_with_attributes(querystring, attributes)?;
+                        Self::parse_with_attributes(querystring, attributes, depth + 1)?;
                     subqueries.push(subquery);
                     querystring = remainder.trim_start();
                 }
